@@ -63,6 +63,17 @@ def run(ck: Checker):
     ck.rule('C11-9', 'a worker that fails to initialise makes join() raise, not hang: Thread.run resolves its future on every path (constructors of computed exception classes are user code), the result collector of a process resolves its future on every exit (the C12-1 / C12-3 obligations)', minimum=2)
     c12.check_thread_run(ck, 'C11-9')
     c12.check_collector(ck, 'C11-9')
+    # "leaving the context after abandoned-stream requests returns in bounded time": Server.stream is fifo_stream over
+    # the server's call; the clean-up of an abandoned stream must return before __exit__ is even reached -- stop flag on
+    # every abnormal consumer exit, set before the drain, and a join of the feeder that cannot wedge on the hand-off queue
+    # whatever the capacity (>= 1) (the C05-3 / C05-4 obligations, as under C07-5)
+    from . import c05 as _c05
+
+    ck.rule('C11-10', 'an abandoned Server.stream lets go: the stop-flag and join-safety obligations of fifo_stream / async_fifo_stream (C05-3, C05-4; counting argument over capacity >= 1)', minimum=4)
+    for p_ in _c05.pairs(ck):
+        if p_.fin is None:
+            _c05.check_stop_flag(ck, 'C11-10', p_)
+            _c05.check_join_safety(ck, 'C11-10', p_)
     ck.rule('C11-8', 'leaving the with-block cannot strand a feeder in the admission wait: the gather loop removes the ledger entry and signals the admission condition exactly once per message whatever the state of the future (cancelled requests of an abandoned stream included) (the C06-4 obligations)', minimum=8)
     for name in server.SERVERS:
         server.check_slot_return(ck, 'C11-8', server.discover(ck.repo, name))
@@ -103,9 +114,21 @@ def check_rollback(ck: Checker, rid: str, mod):
                     stoppers.add(n.id)
         # a `for` over (a prefix of) what was started whose body stops each element is one stopper:
         # with nothing started yet its zero iterations are exactly right
+        def _is_prefix(it):
+            if isinstance(it, ast.Call) and dotted(it.func) in ('reversed', 'list', 'tuple') and len(it.args) == 1:
+                return _is_prefix(it.args[0])
+            if isinstance(it, ast.Subscript) and isinstance(it.slice, ast.Slice):
+                sl = it.slice
+                step_ok = sl.step is None or (isinstance(sl.step, ast.Constant) and sl.step.value == 1)
+                return sl.lower is None and step_ok  # X[:k]
+            return isinstance(it, (ast.Name, ast.Attribute))  # a collection of what was started (checked elsewhere)
+
+        prefix_probs = []
         for n in cfg.nodes:
             if n.kind == 'for' and any(k in stoppers for k in cfg.loop_nodes(n.id)):
                 stoppers.add(n.id)
+                if cname in COMPOUND and n.pending is None and any(h.kind == 'except' and n.id in reachable(cfg, [h.id], edge_ok=lambda e: not e.is_exc) for h in cfg.nodes) and not _is_prefix(n.ast.iter):
+                    prefix_probs.append(f'L{n.lineno}: the rollback walks `{norm_text(n.ast.iter)}`, which is not a prefix `X[:k]` of the members: for the first member (k = 0) a slice with a computed start or a negative step wraps around to members that were never started — their stop() asserts, and the caller gets that AssertionError instead of the worker\'s own error')
         probs = []
         for rn in raisers:
             if path_avoiding(cfg, [cfg.entry], {rn.id}, avoid=stoppers) is None:
@@ -158,6 +181,8 @@ def check_rollback(ck: Checker, rid: str, mod):
                     state_probs.append(f'the rollback helper `{g.name}` reads `self.{attr}`, which start() assigns only after the launches: when a launch fails the helper finds the attribute missing (AttributeError instead of the real error, earlier workers keep running) or still holding the queue of the previous cycle')
         if state_probs:
             ck.ob(rid, f, (f.node.lineno, f'{cname}.start rollback state'), False, '; '.join(sorted(set(state_probs))))
+        if prefix_probs:
+            ck.ob(rid, f, (f.node.lineno, f'{cname}.start rollback range'), False, '; '.join(sorted(set(prefix_probs))))
         # helper threads of the servlet itself (the dispatcher of a switch / ensemble): a launch that can still fail after
         # such a thread was started must end it on the failure path -- the simple way is to start it after all launches
         tattrs = {dotted(n.ast.targets[0]) for n in cfg.nodes if n.kind == 'stmt' and isinstance(n.ast, ast.Assign) and len(n.ast.targets) == 1 and isinstance(n.ast.value, ast.Call) and (dotted(n.ast.value.func) or '').split('.')[-1] == 'Thread' and (dotted(n.ast.targets[0]) or '').startswith('self.')}
